@@ -1,4 +1,5 @@
-\* layout scenarios with the verdict of the model of the code AS FOUND (ManifestDelete without Validate): esc = 1 where it escapes
+\* switch DeleteValidates = FALSE (ManifestDelete before fix 3b8373e): layout scenarios with the verdict of that variant;
+\* used only to EXPLAIN escapes the real code shows (e.g. on the reverse-of-fix seed), never to predict the current code
 CONSTANTS TitleClean = "rooted" LinkPolicy = "skip" DeleteValidates = FALSE MaxFull = 1 MaxCore = 1
   Eps = {"lay"}
 CONSTANT WithVerdict = TRUE
